@@ -167,6 +167,10 @@ impl Sim {
                             None => log.writes.push("W?".into()),
                         }
                     }
+                    // the in-flight set before the command, deadlines included: what a batch scheduled is what is in
+                    // flight afterwards and was not before (one key can be in flight under two record types from one
+                    // holder, so a look-up by (key, holder) cannot tell which of the two a returned pair stands for)
+                    let (_tbf0, mut ogf_prev) = hook::replication_fetcher_queues(&n.driver);
                     if let Err(e) = hook::handle_local_cmd(&mut n.driver, cmd) {
                         log.other.push(format!("localerr:{}", short_err(&e)));
                     }
@@ -180,9 +184,19 @@ impl Sim {
                                 log.sched.push(keys.clone());
                                 log.sched_after_put.push(is_done && saw_put);
                                 let (_tbf, ogf) = hook::replication_fetcher_queues(&n.driver);
+                                let mut added: Vec<_> = ogf.iter().filter(|e| !ogf_prev.contains(e)).cloned().collect();
                                 log.sched_types.push(
-                                    keys.iter().map(|(h, k)| ogf.iter().find(|(ok, _, oh, _)| ok == k && oh == h).map(|(_, t, _, _)| t.clone())).collect(),
+                                    keys.iter()
+                                        .map(|(h, k)| {
+                                            // an entry that entered the in-flight set with this command, each used once
+                                            match added.iter().position(|(ok, _, oh, _)| ok == k && oh == h) {
+                                                Some(p) => Some(added.remove(p).1),
+                                                None => ogf.iter().find(|(ok, _, oh, _)| ok == k && oh == h).map(|(_, t, _, _)| t.clone()),
+                                            }
+                                        })
+                                        .collect(),
                                 );
+                                ogf_prev = ogf;
                                 n.node.handle_network_event(NetworkEvent::KeysToFetchForReplication(keys));
                             }
                             NetworkEvent::FailedToFetchHolders(set) => log.failed.extend(set),
